@@ -47,6 +47,7 @@ untilc = @{ (!("c" | "*/") ~ ANY)* }
 polar = { (!b ~ ANY ~ a) | a ~ a }
 notsoi = { (!SOI ~ b)? ~ a+ }
 eoipred = { &SOI ~ a ~ (b | &EOI) }
+polar2 = { !(a ~ b) ~ a ~ "c" }
 "# } }
 
 mod p {
@@ -89,6 +90,7 @@ untilc = @{ (!("c" | "*/") ~ ANY)* }
 polar = { (!b ~ ANY ~ a) | a ~ a }
 notsoi = { (!SOI ~ b)? ~ a+ }
 eoipred = { &SOI ~ a ~ (b | &EOI) }
+polar2 = { !(a ~ b) ~ a ~ "c" }
 "#]
     pub struct P;
 }
@@ -133,6 +135,7 @@ untilc = @{ (!("c" | "*/") ~ ANY)* }
 polar = { (!b ~ ANY ~ a) | a ~ a }
 notsoi = { (!SOI ~ b)? ~ a+ }
 eoipred = { &SOI ~ a ~ (b | &EOI) }
+polar2 = { !(a ~ b) ~ a ~ "c" }
 "#]
     pub struct T;
 }
@@ -164,7 +167,7 @@ fn skip_trailing(s: &str, mut p: usize) -> usize {
 fn rule_matches_at(name: &str, s: &str, loc: usize) -> Option<bool> {
     let pos = Position::new(s, loc)?;
     macro_rules! d { ($($r:ident),*) => { match name { $( stringify!($r) => Some(t::pairs::$r::try_check_partial(pos).is_ok()), )* "EOI" => Some(loc == s.len()), _ => None } } }
-    d!(builtin, stk2, pushskip, deep, deep_n, deep_na, a, b, seq, seq_atomic, seq_compound, seq_nonatomic, nest, nest2, rep, rep_n, choice, opt, pred, usesilent, stack, insens, nl, soi, anyrule, atomic_via_silent, compound_via_silent, insens2, untilc, polar, notsoi, eoipred)
+    d!(builtin, stk2, pushskip, deep, deep_n, deep_na, a, b, seq, seq_atomic, seq_compound, seq_nonatomic, nest, nest2, rep, rep_n, choice, opt, pred, usesilent, stack, insens, nl, soi, anyrule, atomic_via_silent, compound_via_silent, insens2, untilc, polar, notsoi, eoipred, polar2)
 }
 /// C10 truthfulness: every rule listed as expected fails at the location, every rule listed as unexpected matches there
 fn truthful(msg: &str, s: &str, loc: usize) -> Result<(), String> {
@@ -378,6 +381,7 @@ fn all_rules(s: &str, cases: &mut u64) -> Result<(), String> {
     check_rule!(polar, false, s, cases);
     check_rule!(notsoi, false, s, cases);
     check_rule!(eoipred, false, s, cases);
+    check_rule!(polar2, false, s, cases);
     check_tree!(a, s, cases); check_tree!(seq, s, cases); check_tree!(seq_nonatomic, s, cases); check_tree!(rep, s, cases); check_tree!(rep_n, s, cases);
     check_tree!(choice, s, cases); check_tree!(opt, s, cases); check_tree!(pred, s, cases); check_tree!(usesilent, s, cases); check_tree!(stack, s, cases);
     check_tree!(insens, s, cases); check_tree!(nl, s, cases); check_tree!(soi, s, cases); check_tree!(eoipred, s, cases);
@@ -414,7 +418,7 @@ fn nb_gen_vs_pest() {
             Err(_) => { println!("NB-RESULT name=nb_gen_vs_pest status=fail cases={} key=input={:?} detail=C09: panic", cases, s); return; }
         }
     }
-    println!("NB-RESULT name=nb_gen_vs_pest status=ok cases={} key=- detail=31 rules x all strings<={} chars over 3 alphabets: verdict/offset/tree vs pest, check==parse incl. error text, full parse, error location, traversal helpers", cases, l);
+    println!("NB-RESULT name=nb_gen_vs_pest status=ok cases={} key=- detail=32 rules x all strings<={} chars over 3 alphabets: verdict/offset/tree vs pest, check==parse incl. error text, full parse, error location, traversal helpers", cases, l);
 }
 #[test]
 fn nb_gen_subinput() {
